@@ -207,7 +207,7 @@ public:
         return {
           Scalar(0.5) - th2 / 24,
           Scalar(1. / 6) - th2 / 120,
-          -Scalar(1) / 48,
+          -Scalar(1) / 12,
           -Scalar(1) / 60,
         };
       } else {
